@@ -262,3 +262,164 @@ Proof.
     + apply cc_inv_singletons.
   - eexists. eexists. split; [vm_compute; reflexivity|]. split; vm_compute; reflexivity.
 Qed.
+
+(** * 6. Termination of the exact-rational model (Proofs/LouvainTermination.v)
+    Sections 4./5. above are conditional on the fuel-indexed loops returning. Here: they do return,
+    with explicit fuel, for tol_optimization > 0 and tol_aggregation >= 0. *)
+From SKN Require Import Proofs.LouvainTermination.
+Local Open Scope Q_scope.
+
+(** ** 6.1 The objective is bounded, for EVERY labelling
+    [objective_bound g out in res] = sum_ij |A_ij - res * out_i * in_j| (computable from the kernel's inputs);
+    no hypothesis on signs or normalisation. *)
+Theorem objective_bounded (g : wgraph) (ows iws : list Q) (res : Q) (labels : list nat) :
+  - objective_bound g ows iws res <= objective g ows iws res labels /\
+  objective g ows iws res labels <= objective_bound g ows iws res.
+Proof. exact (objective_abs_bounded g ows iws res labels). Qed.
+Print Assumptions objective_bounded.
+
+(** Non-negative adjacency entries and node weights, resolution >= 0:
+    -res * (sum out)(sum in) <= objective <= sum_ij A_ij. *)
+Theorem objective_bounded_nonnegative (g : wgraph) (ows iws : list Q) (res : Q) (labels : list nat) :
+  let n := length g in
+  (forall i j, (i < n)%nat -> (j < n)%nat -> 0 <= entry g i j) ->
+  (forall i, (i < n)%nat -> 0 <= nthq ows i) -> (forall i, (i < n)%nat -> 0 <= nthq iws i) ->
+  0 <= res ->
+  - (res * (qsum n (nthq ows) * qsum n (nthq iws))) <= objective g ows iws res labels /\
+  objective g ows iws res labels <= total_weight g.
+Proof. exact (objective_bounded_nonneg g ows iws res labels). Qed.
+Print Assumptions objective_bounded_nonnegative.
+
+(** After Louvain._pre_processing (adjacency normalised to total weight 1, node weights = probabilities),
+    for each of the three modularity kinds ('dugue', 'newman', 'potts'), non-negative working adjacency
+    and resolution >= 0:   -resolution <= objective(labels) <= 1   for every labelling. *)
+Theorem louvain_objective_bounded (kind : modkind) (m : wmat) (fb : bool) (index : option (list nat))
+        (p : prep) (res : Q) (labels : list nat) :
+  pre_processing kind m fb index = MOk p ->
+  let g1 := working_graph kind m fb index in
+  (forall i j, (i < length g1)%nat -> (j < length g1)%nat -> 0 <= entry g1 i j) ->
+  0 <= res ->
+  - res <= objective (p_adj p) (p_out p) (p_in p) res labels /\
+  objective (p_adj p) (p_out p) (p_in p) res labels <= 1.
+Proof. exact (prep_objective_bounded kind m fb index p res labels). Qed.
+Print Assumptions louvain_objective_bounded.
+
+(** The value on the singleton partition, where every optimisation of Louvain starts. *)
+Theorem objective_of_singletons (g : wgraph) (ows iws : list Q) (res : Q) :
+  let n := length g in
+  objective g ows iws res (seq 0 n) == qsum n (fun i => entry g i i - res * nthq ows i * nthq iws i).
+Proof. exact (objective_singletons g ows iws res). Qed.
+Print Assumptions objective_of_singletons.
+
+(** ** 6.2 optimize_core terminates for tol > 0
+    [pass_fuel B q0 tol] = ceil((B - q0) / tol) + 1. For ANY upper bound B of the objective and any start
+    labelling whose cluster-weight arrays are consistent (Louvain's and Leiden's calls), the [while]
+    loop over passes returns within pass_fuel B objective(start) tol passes: every pass that does not
+    stop the loop has increase_pass > tol, and increase_pass is the objective gain (pass_increase_exact).
+    Symmetry of the adjacency is what makes increase_pass the gain (Louvain hands the kernel A + A^T). *)
+Theorem optimize_core_terminates (fuel : nat) (g : wgraph) (ows iws : list Q) (res tol B : Q)
+        (labels : list nat) (ocw icw : list Q) (mg : marg) :
+  wf_wgraph g -> wsymmetric g ->
+  length labels = length g -> length ocw = length icw ->
+  (forall x, (x < length g)%nat -> (lab labels x < length ocw)%nat) ->
+  (forall c, (c < length ocw)%nat -> nthq ocw c == csum g labels ows c) ->
+  (forall c, (c < length ocw)%nat -> nthq icw c == csum g labels iws c) ->
+  0 < tol -> (forall l, objective g ows iws res l <= B) ->
+  (pass_fuel B (objective g ows iws res labels) tol <= fuel)%nat ->
+  exists st inc, optimize fuel g ows iws res tol labels ocw icw mg = Some (st, inc).
+Proof. exact (optimize_terminates fuel g ows iws res tol B labels ocw icw mg). Qed.
+Print Assumptions optimize_core_terminates.
+
+(** Louvain's call (labels = arange(n), cluster weights = node weights), fuel computed from the inputs. *)
+Theorem optimize_core_terminates_computed (fuel : nat) (g : wgraph) (ows iws : list Q) (res tol : Q) (mg : marg) :
+  wf_wgraph g -> wsymmetric g -> length ows = length g -> length iws = length g ->
+  0 < tol ->
+  let n := length g in
+  (pass_fuel (objective_bound g ows iws res) (objective g ows iws res (seq 0 n)) tol <= fuel)%nat ->
+  exists st inc, optimize fuel g ows iws res tol (seq 0 n) ows iws mg = Some (st, inc).
+Proof. exact (optimize_singletons_terminates fuel g ows iws res tol mg). Qed.
+Print Assumptions optimize_core_terminates_computed.
+
+(** tol >= 0, in particular tol_optimization = 0, in EXACT arithmetic: a continuing pass strictly
+    increases the objective, which takes at most k^n values (k cluster slots, n nodes): k^n + 1 passes
+    suffice. PARTIAL with respect to the property: this is the exact-rational model only; in the float32
+    kernel an accepted "gain" can be rounding noise and the loop need not stop (known finding D32). *)
+Theorem optimize_core_terminates_tol0_partial (fuel : nat) (g : wgraph) (ows iws : list Q) (res tol : Q)
+        (labels : list nat) (ocw icw : list Q) (mg : marg) :
+  wf_wgraph g -> wsymmetric g ->
+  length labels = length g -> length ocw = length icw ->
+  (forall x, (x < length g)%nat -> (lab labels x < length ocw)%nat) ->
+  (forall c, (c < length ocw)%nat -> nthq ocw c == csum g labels ows c) ->
+  (forall c, (c < length ocw)%nat -> nthq icw c == csum g labels iws c) ->
+  0 <= tol ->
+  (S (length ocw ^ length g) <= fuel)%nat ->
+  exists st inc, optimize fuel g ows iws res tol labels ocw icw mg = Some (st, inc).
+Proof. exact (optimize_terminates_exact fuel g ows iws res tol labels ocw icw mg). Qed.
+Print Assumptions optimize_core_terminates_tol0_partial.
+
+(** ** 6.3 Louvain.fit terminates
+    An aggregation that does not stop the loop has increase > tol_aggregation >= 0, so at least two nodes
+    were merged: the aggregate graph has strictly fewer nodes. Fuel = number of nodes of the working graph
+    for the aggregation loop; for the pass loop of every level the fuel of 6.2 computed once on the
+    pre-processed input (the objective of every level is the objective of the composed labelling of the
+    input graph, and it never decreases from level to level). [n_aggregations] plays no role. *)
+Theorem louvain_fit_terminates (fuel kfuel : nat) (kind : modkind) (res tol_opt tol_agg : Q) (n_agg : Z)
+        (m : wmat) (fb : bool) (index : option (list nat)) (p : prep) (B : Q) :
+  pre_processing kind m fb index = MOk p ->
+  0 < tol_opt -> 0 <= tol_agg ->
+  (forall l, objective (p_adj p) (p_out p) (p_in p) res l <= B) ->
+  (pass_fuel B (objective (p_adj p) (p_out p) (p_in p) res (seq 0 (length (p_adj p)))) tol_opt <= kfuel)%nat ->
+  (length (p_adj p) <= fuel)%nat ->
+  exists r, louvain_loop fuel kfuel res tol_opt tol_agg n_agg (p_adj p) (p_out p) (p_in p)
+                         (seq 0 (length (p_adj p))) 0 [] marg0 = MOk r.
+Proof. exact (louvain_loop_fit_terminates fuel kfuel kind res tol_opt tol_agg n_agg m fb index p B). Qed.
+Print Assumptions louvain_fit_terminates.
+
+(** The whole of fit, with both fuels computed from its arguments:
+    [louvain_fuel] = number of nodes of the working graph,
+    [louvain_kfuel] = pass_fuel (objective_bound ..) (objective(singletons)) tol_optimization on the
+    pre-processed input. The only error fit can return is ValueError (empty / invalid input). *)
+Theorem louvain_fit_never_out_of_fuel (fuel kfuel : nat) (kind : modkind) (res tol_opt tol_agg : Q) (n_agg : Z)
+        (sort_clusters : bool) (m : wmat) (fb : bool) (index : option (list nat)) :
+  0 < tol_opt -> 0 <= tol_agg ->
+  (louvain_kfuel kind res tol_opt m fb index <= kfuel)%nat ->
+  (louvain_fuel kind m fb index <= fuel)%nat ->
+  louvain_fit fuel kfuel kind res tol_opt tol_agg n_agg sort_clusters m fb index <> MErr MOutOfFuel.
+Proof.
+  exact (LouvainTermination.louvain_fit_never_out_of_fuel fuel kfuel kind res tol_opt tol_agg n_agg
+           sort_clusters m fb index).
+Qed.
+Print Assumptions louvain_fit_never_out_of_fuel.
+
+(** louvain_increase_total without the "model returns" hypothesis. *)
+Theorem louvain_increase_total_unconditional (fuel kfuel : nat) (kind : modkind) (res tol_opt tol_agg : Q)
+        (n_agg : Z) (m : wmat) (fb : bool) (index : option (list nat)) (p : prep) :
+  pre_processing kind m fb index = MOk p ->
+  0 < tol_opt -> 0 <= tol_agg ->
+  (louvain_kfuel kind res tol_opt m fb index <= kfuel)%nat ->
+  (louvain_fuel kind m fb index <= fuel)%nat ->
+  exists r,
+    louvain_loop fuel kfuel res tol_opt tol_agg n_agg (p_adj p) (p_out p) (p_in p)
+                 (seq 0 (length (p_adj p))) 0 [] marg0 = MOk r /\
+    let obj := objective (p_adj p) (p_out p) (p_in p) res in
+    let g1 := working_graph kind m fb index in
+    obj (r_membership r) - obj (seq 0 (length (p_adj p))) == log_total (r_log r) /\
+    0 <= log_total (r_log r) /\
+    log_nonneg (r_log r) /\
+    length (r_membership r) = length g1 /\
+    (forall u v, (u < length g1)%nat -> (v < length g1)%nat ->
+       lab (r_membership r) u = lab (r_membership r) v -> connected g1 u v).
+Proof. exact (louvain_fit_core_unconditional fuel kfuel kind res tol_opt tol_agg n_agg m fb index p). Qed.
+Print Assumptions louvain_increase_total_unconditional.
+
+(** Non-vacuity: on the house graph with tol_optimization = 1/100 and tol_aggregation = 0 the computed
+    fuels are 5 aggregations and 120 passes, and fit returns with them. *)
+Example c06_termination_nonvacuous :
+  louvain_fuel Dugue ex_house false None = 5%nat /\
+  louvain_kfuel Dugue 1 (1 # 100) ex_house false None = 120%nat /\
+  louvain_fit 5 120 Dugue 1 (1 # 100) 0 (-1) true ex_house false None
+  = MOk ([0; 0; 1; 1; 0]%nat,
+         [{| l_count := 1; l_clusters := 2; l_increase := 23 # 72 |};
+          {| l_count := 2; l_clusters := 2; l_increase := 0 |}],
+         (Some (1 # 36), 2%nat)).
+Proof. split; [vm_compute; reflexivity|]. split; vm_compute; reflexivity. Qed.
